@@ -190,6 +190,7 @@ class Model:
         self.nodes: dict[int, dict] = {}
         self.parked: dict[tuple[int, int, int], str] = {}  # key -> encoded line
         self.pres_outstanding: set[int] = set()
+        self.stale_ok: set[tuple[int, int, int]] = set()  # parked before the node re-presented: release optional
         self.relaxations: Counter = Counter()
         self.local_epoch = None  # callable -> expected local-epoch int at "now"
         if version is not None:
@@ -248,6 +249,7 @@ class Model:
                 if obs.writes:
                     d.append(("send", "park:written-at-once", repr(obs.writes)))
                 self.parked[(n, c, t)] = line
+                self.stale_ok.discard((n, c, t))
             else:
                 if obs.kind == "ok":
                     if ok_writes != [line]:
@@ -320,6 +322,7 @@ class Model:
             if c == 255:
                 self.nodes[n] = new_node(t, p)
                 self.pres_outstanding.discard(n)
+                self.stale_ok.update(k for k in self.parked if k[0] == n)
                 if n == 0:
                     version_report(p)
             elif n not in self.nodes:
@@ -448,7 +451,15 @@ class Model:
                 key = (f[0], f[1], f[4])
                 if self.parked.get(key) == w:
                     del self.parked[key]
+                    self.stale_ok.discard(key)
             left = [k for k in self.parked if k[0] == release_for]
+            if not failed:
+                for k in [k for k in left if k in self.stale_ok]:
+                    # parked before the node re-presented: the statement does not rule on it
+                    del self.parked[k]
+                    self.stale_ok.discard(k)
+                    self.relaxations["stale-parked-optional"] += 1
+                left = [k for k in self.parked if k[0] == release_for]
             if failed:
                 if release and release[-1][1]:
                     d.append(("writes.release", "write-after-failed-write", repr([w for _, _, w in release])))
